@@ -148,6 +148,24 @@ def check_attached(case, triset, why):
     return None
 
 
+def as_triangles(arr, k):
+    """the index array of a triangle set as nested lists of shape (n, 3, k) of ints"""
+    import numpy
+    a = numpy.asarray(arr)
+    if a.ndim != 3 or a.shape[1:] != (3, k):
+        raise ValueError('index array of shape %r, expected (n, 3, %d)' % (a.shape, k))
+    return [[[int(x) for x in c] for c in tr] for tr in a.tolist()]
+
+
+def run_case_guarded(case):
+    try:
+        return run_case(case)
+    except Exception as e:  # noqa
+        return {'load_code': 12, 'index': None, 'vcounts': None, 'tri_code': 0, 'tri_index': None, 'pp': None,
+                'fails': [{'clause': 'observable', 'site': '%s:%s' % (case.get('kind'), type(e).__name__),
+                           'detail': 'observing the loaded primitive raised %r' % (e,)}]}
+
+
 def run_case(case):
     import collada
     kind = case['kind']
@@ -172,7 +190,7 @@ def run_case(case):
 
     if kind in ('tristrips', 'trifans'):
         idx = prim.index
-        out['index'] = idx.tolist()
+        out['index'] = as_triangles(idx, k)
         runs = [rows_of(p, k) for p in case['ps']]
         exp = [tr for r in runs for tr in expected_expand(kind, r)]
         want = sum(max(len(r) - 2, 0) for r in runs)
@@ -211,7 +229,7 @@ def run_case(case):
         out['tri_code'] = exc_code(e)
         why('triangulates', 'triangleset:' + type(e).__name__, 'triangleset() raised %r for vcounts %r' % (e, vc))
         return out
-    out['tri_index'] = tidx.tolist()
+    out['tri_index'] = as_triangles(tidx, k)
     got = [tuple(tuple(int(x) for x in c) for c in tr) for tr in tidx.tolist()]
     bad = False
     if len(ts) != want or len(got) != want:
@@ -283,7 +301,7 @@ def main():
         if case['kind'] == 'slice':
             out.append(run_slice(case))
         else:
-            out.append(run_case(case))
+            out.append(run_case_guarded(case))
     json.dump(out, sys.stdout)
 
 
